@@ -17,7 +17,7 @@ NEEDS = ("runner",)
 TRUSTED = [
     "binding semantics (Lean): C12L.Swift.unitIn / fieldUnit / itemUnit, C12L.Scala.unsignedIn / formatted / definesUnsigned, "
     "C12L.Go.timeIn / usesJson, C12L.TypeScript.fieldNeeds / clauseFor, C12L.Kotlin.declUses / provided, "
-    "C12L.Python.typeNeeds / fieldSafe / fieldRisky / structSafe / enumSafe / itemSafe / itemRisky / Provides "
+    "C12L.Python.typeNeeds / fieldSafe / structSafe / enumSafe / itemSafe / fnsNeeds / Provides "
     "(which helper names a rendered declaration mentions, and what the header / footer of a file defines)",
     "the python extractors of tools/c12.py (one per language: names used vs defined/imported in the generated text; "
     "Python through CPython's ast with a module/function scope analysis)",
@@ -374,7 +374,14 @@ def py_datetime_imported(t, maps):
 
 
 def known_python(case):
-    """the classes of C12.Known_python that the case falls into (the printer state is simulated from the input)"""
+    """Python has no known class any more: py-alias-typevar (614135b), py-default-custom-fns (ab2f0e6) and
+    py-mapped-datetime-import (062e77e) are repaired and TsV.C12.C12_python is a full theorem.  (The simulation of the
+    printer state above is kept for `replay`-time diagnostics of a returned defect.)"""
+    return []
+
+
+def returned_python(case):
+    """which repaired Python class an undefined name on this input would belong to (for the message of a violation)"""
     d, maps = case["desc"], case["cfg"].get("type_mappings", {})
     out = []
     registered = set()
@@ -385,9 +392,10 @@ def known_python(case):
         if ty and not dflt:
             registered.add(ty)
     if any(dflt and py_type(t, maps)[0] and py_type(t, maps)[0] not in registered for t, dflt, _ in d["fields"]):
-        out.append("py-default-custom-fns")
-    if "datetime" in registered and not any(py_datetime_imported(t, maps) for t in all_types(d)):
-        out.append("py-mapped-datetime-import")
+        out.append("py-default-custom-fns (fix ab2f0e6)")
+    if ("datetime" in registered or any(py_type(t, maps)[0] == "datetime" for t, _, _ in d["fields"])) \
+            and not any(py_datetime_imported(t, maps) for t in all_types(d)):
+        out.append("py-mapped-datetime-import (fix 062e77e)")
     return out
 
 
@@ -406,15 +414,7 @@ def known_classes(case):
 
 def explained(case, names, classes):
     """are all the undefined names the oracle found accounted for by the known classes of the case"""
-    lang = case["lang"]
-    if lang != "python":
-        return bool(classes)
-    rest = set(names)
-    if "py-default-custom-fns" in classes:
-        rest -= {"parse_rfc3339", "serialize_datetime_data", "deserialize_binary_data", "serialize_binary_data"}
-    if "py-mapped-datetime-import" in classes:
-        rest -= {"datetime"}
-    return not rest
+    return bool(classes)
 
 
 def item_names(case):
@@ -538,7 +538,9 @@ def evaluate(check, cases, label):
                 check.count("known " + "+".join(classes))
                 if ok_known:
                     continue
-            check.violation("%s output uses helper names that it neither defines nor imports: %s" % (lang, problems),
+            back = returned_python(c) if lang == "python" else []
+            check.violation("%s output uses helper names that it neither defines nor imports: %s%s" % (
+                lang, problems, " - the repaired finding %s has returned" % " / ".join(back) if back else ""),
                             case=replay, impl=ra, model=ma, failing_input=True)
             continue
         if classes:
@@ -547,7 +549,7 @@ def evaluate(check, cases, label):
             if agree:
                 check.violation("%s: the input lies in %s but the implementation's output defines everything it uses, and "
                                 "the model agrees with it" % (lang, classes), case=replay, impl=ra, model=ma,
-                                failing_input=False, broken="exactness of TsV.C12.Known_* (C12_python_exact / C12_kotlin_exact)")
+                                failing_input=False, broken="exactness of TsV.C12.Known_kotlin (C12_kotlin_exact)")
             else:
                 check.notes.append("%s: known class %s no longer fails (repaired upstream?)" % (lang, classes))
             continue
@@ -558,7 +560,7 @@ def evaluate(check, cases, label):
             check.violation("%s: generated text differs from the model (oracle passes on the implementation's text): %s"
                             % (lang, d or "%s vs %s" % (str(ma)[:200], str(ra)[:200])), case=replay, impl=ra, model=ma,
                             failing_input=False, broken="correspondence L2 generate_types (theorems TsV.C12.C12_partial, "
-                            "C12_swift, C12_go, C12_typescript, C12_scala, C12_python_exact, C12_kotlin_partial)")
+                            "C12_swift, C12_go, C12_typescript, C12_scala, C12_python, C12_kotlin_partial)")
         if len(check.samples) < 6 and trig and c["multi"] and lang in ("swift", "python"):
             check.sample({"lang": lang, "source": src, "outputs": {k: v[-400:] for k, v in outputs.items()}})
 
@@ -583,16 +585,7 @@ def replay(check, case):
 
 def relevant(classes, names, lang):
     """the known classes that actually account for one of the undefined names"""
-    if lang != "python":
-        return classes
-    out = []
-    for k in classes:
-        if k == "py-default-custom-fns" and names & {"parse_rfc3339", "serialize_datetime_data",
-                                                     "deserialize_binary_data", "serialize_binary_data"}:
-            out.append(k)
-        if k == "py-mapped-datetime-import" and "datetime" in names:
-            out.append(k)
-    return out
+    return classes
 
 
 def chains(maxlen):
@@ -601,14 +594,13 @@ def chains(maxlen):
 
 
 WITNESSES = [
-    ("py-default-custom-fns", "python", [("field_default", (), "OffsetDateTime")], None),
-    ("py-mapped-datetime-import", "python", [("field", (), "Stamp")], None),
     ("kotlin-empty-package", "kotlin", [("field", (), "u8")], {"package": ""}),
 ]
 
 
-# the witnesses of the repaired findings scala-unsigned-scan-depth (c7871b1) and py-alias-typevar (614135b): now ordinary
-# inputs that must pass the oracle (and on which model and implementation must agree)
+# the witnesses of the repaired findings scala-unsigned-scan-depth (c7871b1), py-alias-typevar (614135b),
+# py-default-custom-fns (ab2f0e6) and py-mapped-datetime-import (062e77e): now ordinary inputs that must pass the oracle
+# (and on which model and implementation must agree); a failure is reported as a VIOLATION with the input ("has returned")
 REGRESSIONS = [
     ("scala", [("field", ("Vec", "Vec"), "u8")]),
     ("scala", [("field", ("Array",), "u16")]),
@@ -618,6 +610,12 @@ REGRESSIONS = [
     ("scala", [("field", ("Wrap", "Vec"), "u8")]),
     ("python", [("alias", ("Vec",), "T")]),
     ("python", [("alias", ("Map", "Option"), "T")]),
+    ("python", [("field_default", (), "OffsetDateTime")]),
+    ("python", [("variant_field_default", (), "OffsetDateTime")]),
+    ("python", [("field_default", (), "Stamp")]),
+    ("python", [("field", (), "Stamp")]),
+    ("python", [("variant_field", (), "Stamp")]),
+    ("python", [("field", (), "Stamp"), ("field_default", (), "Vec<u8>")]),
 ]
 
 
